@@ -9,6 +9,7 @@ import (
 	"reflect"
 	"sort"
 	"testing"
+	"time"
 
 	"go.sia.tech/core/consensus"
 	"go.sia.tech/core/types"
@@ -37,9 +38,17 @@ type TreeSpec struct {
 	Scripts map[int][]string `json:"scripts"`
 	// UniqueWindows: no two live v1 contracts share a window end (see mat.World)
 	UniqueWindows bool `json:"uniqueWindows"`
+	// HeavyShort, if set, builds the directed "heavier but shorter" shape: a branch of HeavyShort[0]
+	// slowly mined blocks and a branch of HeavyShort[1] (< [0]) quickly mined blocks on a network
+	// with non-trivial difficulty; the shorter one ends up sufficiently heavier.
+	HeavyShort [2]int `json:"heavyShort"`
 }
 
 func (ts TreeSpec) Build() *mat.Tree {
+	if ts.HeavyShort[0] > 0 {
+		t, _, _ := heavyShortTreeGap(ts.Seed, ts.HeavyShort[0], ts.HeavyShort[1], 2*time.Hour)
+		return t
+	}
 	w := mat.NewWorld(mat.Params{Allow: ts.Allow, Require: ts.Require, Final: ts.Final, Seed: ts.Seed})
 	w.UniqueWindows = ts.UniqueWindows
 	rng := rand.New(rand.NewSource(ts.Seed))
